@@ -140,6 +140,12 @@ func fnPkg(fn *ssa.Function) *ssa.Package {
 			return q.Pkg
 		}
 	}
+	// bound-method closures and other synthetic wrappers carry the object of the method they wrap
+	if o := fn.Object(); o != nil && o.Pkg() != nil {
+		if p := fn.Prog.Package(o.Pkg()); p != nil {
+			return p
+		}
+	}
 	// methods of instantiated/synthetic wrappers
 	if fn.Signature != nil && fn.Signature.Recv() != nil {
 		t := fn.Signature.Recv().Type()
